@@ -1,10 +1,7 @@
-"""Registry: property id -> Coq property file, correspondence families, budgets."""
+"""Registry: property id -> Coq property file, correspondence families, budgets.
+One JSON file per property under gen/props.d/."""
+import json
+import os
 
-PROPS = {
-    "C18": {
-        "coq": "Props/C18.v",
-        "families": ["core"],
-        "budget": {"core": {"quick": 600, "thorough": 20000}},
-        "assumptions": ["wall-clock alarms (on_wall_clock=true) are outside this model; they belong to C17"],
-    },
-}
+_D = os.path.join(os.path.dirname(os.path.abspath(__file__)), "props.d")
+PROPS = {f[:-5]: json.load(open(os.path.join(_D, f))) for f in sorted(os.listdir(_D)) if f.endswith(".json")}
